@@ -78,6 +78,10 @@ func CaseInsensitiveCompare(a, b []byte) bool {
 		if a[i]|0x20 != b[i]|0x20 {
 			return false
 		}
+		// only ASCII letters have a case: any other byte must match exactly ('\r'|0x20 == '-')
+		if a[i] != b[i] && (a[i]|0x20 < 'a' || a[i]|0x20 > 'z') {
+			return false
+		}
 	}
 	return true
 }
